@@ -1,7 +1,7 @@
 """C21 — zone validation reports the defined semantic issues (static clauses: issue table)."""
 import re
 
-from qv.facts import callee_name, const_name
+from qv.facts import callee_name, is_place, const_name
 from qv import paths
 from qv.rulelib import calls_in, enum_variants
 
@@ -75,8 +75,40 @@ def sites(fn):
     return out
 
 
-def _sites(fn):
+_FACTS = [None]
+
+
+def _closure_sites(fn):
+    """Sites inside closures that fn builds (a loop body turned into `try_for_each(|x| ..)`): the conditions of the
+    place where the closure is built, plus the closure's own conditions.  The closure's parameters are renamed (`carg`)
+    so that they are not mistaken for fn's; a condition that reads a `&mut` capture counts as state (`var:`)."""
+    F = _FACTS[0]
     out = []
+    if F is None:
+        return out
+    for pb, bl in enumerate(fn.blocks):
+        if bl['cleanup']:
+            continue
+        for st in bl['stmts']:
+            if not (st['k'] == 'assign' and st['rv']['k'] == 'agg' and st['rv'].get('ak') == 'closure'):
+                continue
+            c = F.fns.get(st['rv']['def'])
+            if c is None:
+                continue
+            mut_caps = {k for k, o in enumerate(st['rv']['ops']) if is_place(o) and (o['pl'].get('ty') or fn.local_ty(o['pl']['l'])).startswith('&mut ')}
+            for what, cb, cg in _sites(c):
+                ren = []
+                for x in cg:
+                    if any(re.search(r'\barg1\.%d\b' % k, x) for k in mut_caps):
+                        x = 'var:captured-mut ' + x
+                    ren.append(re.sub(r'\barg(\d)', r'carg\1', x))
+                for pg in paths.reaching_guard_sets(fn, pb):
+                    out.append((what, pb, pg + ren))
+    return out
+
+
+def _sites(fn):
+    out = _closure_sites(fn) if '{closure' not in fn.gpath else []
     for b, bl in enumerate(fn.blocks):
         if bl['cleanup']:
             continue
@@ -90,6 +122,7 @@ def _sites(fn):
 
 
 def check(R, F):
+    _FACTS[0] = F
     la = enum_variants(F, 'db::zone::LookupAddrsResult')
     gp = enum_variants(F, 'db::zone::GluePolicy')
     i = {n: la.index(n) for n in LA}
